@@ -17,7 +17,8 @@ EXPLANATION = (
     "t_exec_mut into audit_query.")
 DECIDED = ["R25a batch runs inside one mutable transaction, no swallowed error (MUST/WHO)",
            "R25b audit written only after success and only if non-empty (DOM cut-sets)",
-           "R25c audited set = mutating set; audit entries carry the submitting user (TABLE + value flow)"]
+           "R25c audited set = mutating set; audit entries carry the submitting user (TABLE + value flow, on every path)",
+           "R31b committed entries are executed once and in log order, marked executed whatever the outcome (shared with C31)"]
 UNDECIDED = ["file-append atomicity of the audit log: an I/O error while appending makes DbPool::exec_mut return Err after "
              "the batch has been committed (audit and database then disagree)",
              "rollback correctness of DbImpl::transaction_mut itself (C13)",
@@ -261,4 +262,9 @@ def run(ctx):
     r25a(ctx)
     r25b(ctx)
     r25c(ctx)
+    # a batch travels to the database as a cluster log entry: "applied all-or-nothing" and "audited exactly the applied
+    # batches, in order" also need every committed entry to be executed once, in log order, whatever its outcome (a
+    # failed batch that stays marked unexecuted runs again at the next start).  R31b, shared with C31.
+    from rules import C31
+    C31.rule_ordered(ctx)
     return 0
